@@ -434,8 +434,18 @@ fn op_arg(toks: &[Tok], prop: &str) -> Outcome {
         }
         None => w.n(1),
     }
-    if prop == "C15" {
-        // callers only send well-formed arguments for C15
+    if prop == "C15" && !crate::genmsg::wf_arg(&a) {
+        // outside the well-formed domain only the validity clause of the property applies
+        let want = match (&a.type_info.kind, &a.value) {
+            (TypeInfoKind::Bool, v) => matches!(v, Value::Bool(_)),
+            (TypeInfoKind::Float(FloatWidth::Width32), v) => matches!(v, Value::F32(_)),
+            (TypeInfoKind::Float(FloatWidth::Width64), v) => matches!(v, Value::F64(_)),
+            _ => true,
+        };
+        if v != Some(want) {
+            oracle.push(("validity_check".into(), format!("valid() = {:?} for kind {:?} with value {:?}", v, a.type_info.kind, a.value)));
+        }
+    } else if prop == "C15" {
         match (l, &bs) {
             (Some(l), Some(b)) => {
                 if l != b.len() {
